@@ -171,6 +171,22 @@ class RateModel:
         self._spec = {}
         self._fnfile = None
 
+    def imported_from(self, file: str, alias: str):
+        """(file, name) of the package module a name was imported from with `from .module import name [as alias]`, or None"""
+        import posixpath
+        modname, name = self.pkg.imports.get(file, {}).get(alias, (None, None))
+        if name is None or not modname or not modname.startswith("."):
+            return None
+        level = len(modname) - len(modname.lstrip("."))
+        base = posixpath.dirname(file)
+        for _ in range(level - 1):
+            base = posixpath.dirname(base)
+        rel = modname.lstrip(".").replace(".", "/")
+        for cand in ([posixpath.join(base, rel + ".py"), posixpath.join(base, rel, "__init__.py")] if rel else [posixpath.join(base, "__init__.py")]):
+            if cand in self.pkg.modules and cand != file:
+                return (cand, name)
+        return None
+
     # ---------------------------------------------------------------- constants hoisted out of the methods
     def module_consts(self, file: str) -> dict:
         """{name: IR} of module-level names bound exactly once to a literal-like display (a tuple of ReactionType members, a
@@ -196,21 +212,12 @@ class RateModel:
                 # (names bound once in the whole module: a function-local of the same name disqualifies, which is the safe side)
                 # a constant imported from another module of the package (`from .tables import _ON_GRAIN`) is that module's constant
                 self._mconsts[file] = out          # (cycle guard: a module being resolved exposes what it has so far)
-                import posixpath
-                for alias, (modname, name) in self.pkg.imports.get(file, {}).items():
-                    if name is None or not modname.startswith(".") or count.get(alias):
-                        continue
-                    level = len(modname) - len(modname.lstrip("."))
-                    base = posixpath.dirname(file)
-                    for _ in range(level - 1):
-                        base = posixpath.dirname(base)
-                    rel = modname.lstrip(".").replace(".", "/")
-                    for cand in ([posixpath.join(base, rel + ".py"), posixpath.join(base, rel, "__init__.py")] if rel else [posixpath.join(base, "__init__.py")]):
-                        if cand in self.pkg.modules and cand != file:
-                            other = self.module_consts(cand)
-                            if name in other:
-                                out[alias] = other[name]
-                            break
+                for alias in self.pkg.imports.get(file, {}):
+                    tgt = self.imported_from(file, alias)
+                    if tgt is not None and not count.get(alias):
+                        other = self.module_consts(tgt[0])
+                        if tgt[1] in other:
+                            out[alias] = other[tgt[1]]
                 for st in mod.body:
                     if isinstance(st, ast.Assign) and len(st.targets) == 1 and isinstance(st.targets[0], ast.Name) and count.get(st.targets[0].id) == 1 \
                             and not isinstance(st.value, (ast.Name, ast.Attribute)) and _literal_like(st.value):
@@ -378,7 +385,18 @@ class RateModel:
                     return None
                 _, f = self.pkg.resolve(cls, name)
                 return self.specialised(cls, f) if f is not None else None
-            self._flows[key] = Flow(fn, self.pkg.cls(dc).file, keep_arms=True, resolver=resolver, consts=self.module_consts(self.pkg.cls(dc).file), raise_arms=True)
+            dfile = self.pkg.cls(dc).file
+
+            def func_resolver(name):
+                """a small module-level helper function of the class's module (or imported from a package module) called by its bare name"""
+                if name in no_inline or name == "_fill_list":
+                    return None
+                f = self.pkg.functions.get((dfile, name))
+                if f is None:
+                    tgt = self.imported_from(dfile, name)
+                    f = self.pkg.functions.get(tgt) if tgt is not None else None
+                return f
+            self._flows[key] = Flow(fn, dfile, keep_arms=True, resolver=resolver, consts=self.module_consts(dfile), raise_arms=True, func_resolver=func_resolver)
         return dc, fn, self._flows[key]
 
     def variants(self, cls: str, meth: str = "rateexpr", enumerate_conditions=True) -> list:
